@@ -136,11 +136,21 @@ class Prov:
         only the chosen branch and only definitions at CFG nodes in `seen` (the nodes reachable under the valuation) count."""
         if at is None:
             at = self.node_of(expr)
+        # traces nest (a valuation may itself ask for provenance): the state of the trace in progress is put aside
+        saved = (getattr(self, "_under", None), getattr(self, "_defmemo", None), getattr(self, "_frames", None))
+        if not hasattr(self, "_plainmemo"):
+            self._plainmemo = {}
         self._under = under
+        self._defmemo = self._plainmemo if under is None else {}    # contributions under a valuation are not those of the plain trace
+        self._frames = []
         try:
             out = self._trace(expr, at, frozenset(), 0)
         finally:
-            self._under = None
+            self._under, self._defmemo, self._frames = saved
+            if self._frames is None:
+                self._frames = []
+            if self._defmemo is None:
+                self._defmemo = self._plainmemo
         if not keys:
             out = {p for p in out if "askey" not in p}
         return out
@@ -159,9 +169,13 @@ class Prov:
             if step.startswith("unpack:") and len(p) >= 2 and p[-1] == "elem" and p[-2].endswith(":zip") and p[-2].startswith("arg") \
                     and p[-2][3:-4].isdigit() and p[-2][3:-4] != step[7:]:
                 continue  # the i-th component of an element of zip(a0, a1, ..) comes from a_i only
-            if p[-1] == step and step.startswith(("arg", "kw:")):
-                out.add(p)      # a value fed again through the same call position (loop-carried accumulators): one step says it
-                continue
+            if step.startswith(("arg", "kw:")) and step in p:
+                # a value fed again through the same call position with nothing but call positions in between (loop-carried
+                # accumulators): one step says it
+                i = len(p) - 1 - p[::-1].index(step)
+                if all(x.startswith(("arg", "kw:")) for x in p[i + 1:]):
+                    out.add(p)
+                    continue
             out.add(p + (step,) if len(p) < MAXLEN else p)
         return out
 
@@ -206,6 +220,7 @@ class Prov:
 
     def _trace(self, e: ast.AST, at: int, seen: frozenset, depth: int) -> Set[Path]:
         if depth > 40:
+            self._note(taint=True)
             return {("unknown:depth",)}
         T = lambda x: self._trace(x, at, seen, depth + 1)
         if isinstance(e, ast.Constant):
@@ -306,6 +321,65 @@ class Prov:
             out = set(sorted(out)[:MAXPATHS])
         return out
 
+    def _note(self, hit=None, visited=None, hits=None, taint=False) -> None:
+        """book-keeping for the memo of definition contributions: what the evaluation in progress consulted / found cut"""
+        if not self._frames:
+            return
+        top = self._frames[-1]
+        if hit is not None:
+            top[1].add(hit)
+        if visited:
+            top[0] |= visited
+        if hits:
+            top[1] |= hits
+        if taint:
+            top[2] = True
+
+    def _def_paths(self, name: str, d: int, s2, depth: int) -> Set[Path]:
+        """what the definition of `name` at node d contributes"""
+        out: Set[Path] = set()
+        if d == self.g.entry:
+            out.add((f"param:{name}",))
+            return out
+        st = self.g.stmt[d]
+        if isinstance(st, ast.Assign):
+            for t in st.targets:
+                if name in C.target_names(t):
+                    paired = self._paired(t, st.value, name)
+                    if paired is not None:
+                        out |= self._trace(paired, d, s2, depth + 1)
+                    else:
+                        out |= self._unpack(t, name, self._trace(st.value, d, s2, depth + 1))
+        elif isinstance(st, ast.AnnAssign) and st.value is not None:
+            out |= self._trace(st.value, d, s2, depth + 1)
+        elif isinstance(st, ast.AugAssign):
+            out |= self._ext(self._trace(st.value, d, s2, depth + 1), f"aug:{type(st.op).__name__}")
+            # previous value
+            for d0 in self.rd.defs_reaching(d, name):
+                if (name, d0) not in s2:
+                    out |= self._trace(ast.Name(id=name, ctx=ast.Load()), d, s2, depth + 1) if False else set()
+            out.add((f"aug:{name}",))
+        elif isinstance(st, ast.For):
+            base = self._ext(self._trace(st.iter, d, s2, depth + 1), "elem")
+            out |= self._unpack(st.target, name, base)
+        elif isinstance(st, ast.With):
+            for it in st.items:
+                if it.optional_vars is not None and name in C.target_names(it.optional_vars):
+                    out |= self._ext(self._trace(it.context_expr, d, s2, depth + 1), "with")
+        elif isinstance(st, ast.ExceptHandler):
+            out.add(("fresh:exception",))
+        else:
+            h = C.header(st)
+            found = False
+            if h is not None:
+                for n in ast.walk(h):
+                    if isinstance(n, ast.NamedExpr) and name in C.target_names(n.target):
+                        out |= self._trace(n.value, d, s2, depth + 1)
+                        found = True
+            if not found:
+                out.add((f"unknown:def@{type(st).__name__}",))
+        return out
+
     def _trace_name(self, e: ast.Name, at: int, seen, depth) -> Set[Path]:
         name = e.id
         cb = self._comp_binding(e)
@@ -336,50 +410,41 @@ class Prov:
         for d in defs:
             key = (name, d)
             if key in seen:
+                self._note(hit=key)     # a definition on the current resolution stack is not followed again
                 continue
-            s2 = seen | {key}
-            if d == self.g.entry:
-                out.add((f"param:{name}",))
+            # the contribution of a definition depends on the context only through which of the definitions it (transitively)
+            # consults are on the resolution stack: it is reused wherever exactly the same ones are cut
+            got = None
+            for V, H, res in self._defmemo.get(key, ()):
+                if H <= seen and not (V & seen):
+                    got = (V, H, res)
+                    break
+            if got is not None:
+                self._note(visited=got[0] | {key}, hits=got[1])
+                out |= got[2]
                 continue
-            st = self.g.stmt[d]
-            if isinstance(st, ast.Assign):
-                for t in st.targets:
-                    if name in C.target_names(t):
-                        paired = self._paired(t, st.value, name)
-                        if paired is not None:
-                            out |= self._trace(paired, d, s2, depth + 1)
-                        else:
-                            out |= self._unpack(t, name, self._trace(st.value, d, s2, depth + 1))
-            elif isinstance(st, ast.AnnAssign) and st.value is not None:
-                out |= self._trace(st.value, d, s2, depth + 1)
-            elif isinstance(st, ast.AugAssign):
-                out |= self._ext(self._trace(st.value, d, s2, depth + 1), f"aug:{type(st.op).__name__}")
-                # previous value
-                for d0 in self.rd.defs_reaching(d, name):
-                    if (name, d0) not in s2:
-                        out |= self._trace(ast.Name(id=name, ctx=ast.Load()), d, s2, depth + 1) if False else set()
-                out.add((f"aug:{name}",))
-            elif isinstance(st, ast.For):
-                base = self._ext(self._trace(st.iter, d, s2, depth + 1), "elem")
-                out |= self._unpack(st.target, name, base)
-            elif isinstance(st, ast.With):
-                for it in st.items:
-                    if it.optional_vars is not None and name in C.target_names(it.optional_vars):
-                        out |= self._ext(self._trace(it.context_expr, d, s2, depth + 1), "with")
-            elif isinstance(st, ast.ExceptHandler):
-                out.add(("fresh:exception",))
-            else:
-                h = C.header(st)
-                found = False
-                if h is not None:
-                    for n in ast.walk(h):
-                        if isinstance(n, ast.NamedExpr) and name in C.target_names(n.target):
-                            out |= self._trace(n.value, d, s2, depth + 1)
-                            found = True
-                if not found:
-                    out.add((f"unknown:def@{type(st).__name__}",))
+            frame = [set(), set(), False]
+            self._frames.append(frame)
+            try:
+                contrib = self._def_paths(name, d, seen | {key}, depth)
+            finally:
+                self._frames.pop()
+            V, H, tainted = frame
+            H.discard(key)
+            V.discard(key)
+            if not tainted:
+                ents = self._defmemo.setdefault(key, [])
+                if len(ents) < 12:
+                    ents.append((frozenset(V), frozenset(H), contrib))
+            self._note(visited=V | {key}, hits=H, taint=tainted)
+            out |= contrib
         ckey = ("content", name)
         group = self._alias_group(name)
+        if any(n_ in self._content for n_ in group):
+            if ckey in seen:
+                self._note(hit=ckey)
+            else:
+                self._note(visited={ckey})
         if any(n_ in self._content for n_ in group) and ckey not in seen and not (self.f.is_method and name == self.f.self_name):
             mine = self.rd.defs_reaching(at, name)
             entries = [(n_, meth, arg) for n_ in sorted(group) for meth, arg in self._content.get(n_, [])]
